@@ -243,6 +243,13 @@ class NPProxy(types.ModuleType):
             return SymNorm(x)
         return real_np.sqrt(x)
 
+    def log2(self, x):
+        if isinstance(x, SymNorm):
+            x = x.materialize()
+        if isinstance(x, SymReal):
+            return core.sym_log2(x)
+        return real_np.log2(x)
+
     def abs(self, x):
         if is_sym(x):
             return abs(x)
@@ -288,13 +295,25 @@ class NPProxy(types.ModuleType):
         return a
 
 
+class _IntShadow(int):
+    """stands for the builtin int in repository modules: still a type (isinstance / dtype= keep working), calls go to sym_int"""
+
+    def __new__(cls, x=0, *a):
+        return sym_int(x, *a)
+
+
+class _FloatShadow(float):
+    def __new__(cls, x=0.0):
+        return sym_float(x)
+
+
 BUILTIN_SHADOWS = {
     "min": sym_min,
     "max": sym_max,
     "abs": sym_abs,
     "sum": sym_sum,
-    "int": sym_int,
-    "float": sym_float,
+    "int": _IntShadow,
+    "float": _FloatShadow,
 }
 
 
@@ -317,14 +336,18 @@ NP_MODULES = [
 ]
 
 SHADOWS = {
-    "acnportal.acnsim.simulator": ["max"],
-    "acnportal.acnsim.interface": ["max", "min"],
-    "acnportal.acnsim.models.battery": ["min", "max", "abs"],
-    "acnportal.acnsim.models.evse": ["min", "max"],
-    "acnportal.acnsim.analysis": ["sum"],
-    "acnportal.algorithms.sorted_algorithms": ["min", "max"],
-    "acnportal.algorithms.preprocessing": ["min", "max"],
-    "acnportal.algorithms.upper_bound_estimator": ["float"],
+    "acnportal.acnsim.simulator": ["max", "min", "abs", "int", "float"],
+    "acnportal.acnsim.interface": ["max", "min", "abs", "int", "float"],
+    "acnportal.acnsim.models.battery": ["min", "max", "abs", "int", "float"],
+    "acnportal.acnsim.models.evse": ["min", "max", "abs", "int", "float"],
+    "acnportal.acnsim.models.ev": ["min", "max", "abs", "int", "float"],
+    "acnportal.acnsim.network.charging_network": ["min", "max", "abs", "int", "float"],
+    "acnportal.acnsim.analysis": ["sum", "min", "max", "abs", "int", "float"],
+    "acnportal.algorithms.sorted_algorithms": ["min", "max", "abs", "int", "float"],
+    "acnportal.algorithms.preprocessing": ["min", "max", "abs", "int", "float"],
+    "acnportal.algorithms.postprocessing": ["min", "max", "abs", "int", "float"],
+    "acnportal.algorithms.utils": ["min", "max", "abs", "int", "float"],
+    "acnportal.algorithms.upper_bound_estimator": ["float", "int", "min", "max", "abs"],
 }
 
 
